@@ -19,8 +19,11 @@
   * `behaviour_congr` — every follow-up PROGRAM gives the same outcome on the restored object
     (follow-ups are functions of the state; the theorem is what turns "equal right after loading"
     into "behaves the same afterwards").
-  * `identity_loss_pinned_*` — which follow-ups can tell an object whose identity bit was lost:
-    only those whose unit has dimension exactly angle / temperature / logarithmic, and those do
+  * `identity_loss_pinned_unary / binaryQ / binarySelf / pow / mul / to` — which follow-ups can tell
+    an object whose identity bit was lost: through the whole dispatcher model (`Ufunc.dispatch`:
+    unary path, binary path with its dimension check, zero exception, K/R guard, conversion of the
+    second operand, rule functions, multiply/divide post-processing, power path) only those whose
+    unit has dimension exactly angle / temperature / logarithmic — and those do
     (`identity_loss_shows_asIs`, kernel-decided on 90°, 300 K, 3 dB for every route of the table).
   * `active_routes_classified` — the regenerated table is the hand-written as-is reference or its
     re-interned variant (kernel-decided over the whole table): a route that stops persisting
@@ -29,6 +32,7 @@
     each on a concrete witness that the harness replays on the real code.
 -/
 import UnytProofs.Lemmas.C11
+import UnytProofs.Lemmas.C11Binary
 import UnytModel.PersistCheck
 
 set_option linter.unusedSectionVars false
@@ -36,7 +40,7 @@ set_option linter.unusedVariables false
 set_option linter.unusedSimpArgs false
 
 namespace Unyt.C11
-open Unyt Unyt.Persist
+open Unyt Unyt.Persist Unyt.Ufunc
 
 section general
 variable {K : Type} [Add K] [Sub K] [Mul K] [Div K] [OfNat K 0] [OfNat K 1] [BEq K] [RPow K]
@@ -142,6 +146,44 @@ theorem identity_loss_pinned_to (C : FCtx K) (x : PObj K) (e : UExpr K) :
   cases unitFromReg C.pre x.reg e with
   | error err => rfl
   | ok u1 => rfl
+
+/-- a unary ufunc (trigonometric functions included) cannot tell that the identity bit was lost
+    unless the unit's dimension is exactly angle, temperature or logarithmic -/
+theorem identity_loss_pinned_unary (C : FCtx K) (x : PObj K) (f : String)
+    (h : Dim.isBase3 x.unit.dim = false) :
+    (follow C (.unary f) x.loseCanon).map Res.noCanon = (follow C (.unary f) x).map Res.noCanon := by
+  simp only [follow, viaDispatch, PObj.loseCanon, PObj.operand, Ufunc.dispatch]
+  apply read_off_canon
+  · intro o o' hf hm; funext v; simp [hf, hm]
+  · exact unaryPath_canon (C.ufunc x.reg) _ rfl _ x.unit (reprOf x.unit) _ _ h
+
+
+/-- a binary ufunc with a quantity taken from the object's registry (`x + 1 degC`, `x < 1 K`,
+    `x * 2 m`, …) cannot tell that the identity bit of `x` was lost unless the dimension of `x` is
+    exactly angle, temperature or logarithmic -/
+theorem identity_loss_pinned_binaryQ (C : FCtx K) (hb : UeqBlindF C) (x : PObj K) (f : String) (e : UExpr K)
+    (v : K) (h : Dim.isBase3 x.unit.dim = false) :
+    (follow C (.binaryQ f e v) x.loseCanon).map Res.noCanon = (follow C (.binaryQ f e v) x).map Res.noCanon := by
+  simp only [follow, PObj.loseCanon]
+  cases unitFromReg C.pre x.reg e with
+  | error err => rfl
+  | ok u1 =>
+    simp only [viaDispatch, PObj.operand, Ufunc.dispatch]
+    apply read_off_canon
+    · intro o o' hf hm; funext a; simp [hf, hm]
+    · exact binaryPath_rsim (C.ufunc x.reg) (ueqBlind_of C x.reg hb) _ rfl _ _ _ _
+        (rsim_lose x.unit (reprOf x.unit) h) (RSim.refl _) _
+
+/-- … nor can a binary ufunc of the object with itself (`x - x`, `x * x`, `x == x`) -/
+theorem identity_loss_pinned_binarySelf (C : FCtx K) (hb : UeqBlindF C) (x : PObj K) (f : String)
+    (h : Dim.isBase3 x.unit.dim = false) :
+    (follow C (.binarySelf f) x.loseCanon).map Res.noCanon = (follow C (.binarySelf f) x).map Res.noCanon := by
+  simp only [follow, PObj.loseCanon, viaDispatch, PObj.operand, Ufunc.dispatch]
+  apply read_off_canon
+  · intro o o' hf hm; funext a; simp [hf, hm]
+  · exact binaryPath_rsim (C.ufunc x.reg) (ueqBlind_of C x.reg hb) _ rfl _ _ _ _
+      (rsim_lose x.unit (reprOf x.unit) h) (rsim_lose x.unit (reprOf x.unit) h) _
+
 
 end general
 
